@@ -9,13 +9,19 @@ use vstd::prelude::*;
 
 verus! {
 
-#[derive(Clone, Copy, PartialEq, Eq)] // derive list reduced
+#[derive(Clone, Copy, PartialEq, Eq, PartialOrd, Ord)] // derive list reduced
 '''
 
 MID = r'''
 impl vstd::std_specs::cmp::PartialEqSpecImpl for FileLen {
     open spec fn obeys_eq_spec() -> bool { true }
     open spec fn eq_spec(&self, other: &FileLen) -> bool { self.0 == other.0 }
+}
+impl vstd::std_specs::cmp::PartialOrdSpecImpl for FileLen {
+    open spec fn obeys_partial_cmp_spec() -> bool { true }
+    open spec fn partial_cmp_spec(&self, other: &FileLen) -> Option<std::cmp::Ordering> {
+        if self.0 < other.0 { Some(std::cmp::Ordering::Less) } else if self.0 == other.0 { Some(std::cmp::Ordering::Equal) } else { Some(std::cmp::Ordering::Greater) }
+    }
 }
 
 #[verifier::external_body] pub struct Path { _p: () }
